@@ -64,6 +64,20 @@ def kvs(l):
     return "[%s]" % "; ".join("KV %s %s" % (Z(k), Z(v)) for k, v in l)
 
 
+def commit_detecting_f33(jar, t, **kw):
+    """jar.commit(); True if the leaf the ROOT embeds received an oid during this commit although the root does not
+    reference it (a registered object that left the tree still points at it): finding F33 -- from then on the
+    root's record and the leaf's own record can disagree"""
+    try:
+        st_root = t.__getstate__()
+    except Exception:  # noqa
+        st_root = None
+    emb = t._firstbucket if (st_root is not None and len(st_root) == 1) else None
+    had = emb is not None and emb._p_oid is not None
+    jar.commit(**kw)
+    return emb is not None and not had and emb._p_oid is not None
+
+
 def f16_condition(env, t, is_root=True):
     """a non-root interior node whose only child is a leaf without oid (the embedded form below the root)"""
     st = t.__getstate__()
